@@ -167,6 +167,23 @@ func c16Check(c C16Case) (r evid.Result) {
 			c.Now, c.Start, c.End, c.Since, start.UnixNano(), end.UnixNano(), wantStart, wantEnd)
 		return r
 	}
+	// Fractional seconds go through a float, and which (second, millisecond) pairs round badly
+	// cannot be guessed: when --start is written that way, every millisecond of its second is
+	// tried in the same spelling.
+	if c.Start.Set && c.Start.Valid && strings.Contains(c.Start.Text, ".") && !strings.ContainsAny(c.Start.Text, "TZ:") {
+		sec := c.Start.Value / 1e9
+		for ms := int64(0); ms < 1000; ms++ {
+			text := fmt.Sprintf("%d.%03d", sec, ms)
+			f := C16Flag{Set: true, Valid: true, Text: text}
+			got, _, err := parseTimeRange(now, optTime(f), optTime(c.End), optDur(c.Since))
+			r.Evals++
+			if err != nil || got.UnixNano() != sec*1e9+ms*1e6 {
+				r.Violation = evid.Viol("C16/range", "--start=%s resolved to %d (err=%v), want %d", text, got.UnixNano(), err, sec*1e9+ms*1e6)
+				return r
+			}
+		}
+		r.Class(true, "millisecond-sweep")
+	}
 	step, err := parseStep(optDur(c.Step), start, end)
 	switch {
 	case c.Step.Set && c.Step.Tiny:
@@ -276,6 +293,11 @@ func c16GenInstant(t *rapid.T, label string) C16Flag {
 	}
 	if ns%1e6 == 0 {
 		spellings = append(spellings, "frac", "frac")
+	}
+	if ns%1e6 == 0 && ns != 0 {
+		// Fractional seconds go through a float: most (second, millisecond) pairs are not exactly
+		// representable, so this spelling gets the largest share.
+		spellings = append(spellings, "frac", "frac", "frac", "frac")
 	}
 	tm := time.Unix(sec, ns)
 	switch rapid.SampledFrom(spellings).Draw(t, label+"-spelling") {
